@@ -33,11 +33,36 @@ theorem parseInt64_lower (s : String) (v : Int) (h : parseInt64 s = some v) : -(
     · exact absurd h (by simp)
     · injection h with h; subst h; omega
 
-theorem taintStamp_lower (n : Node) (v : Int) (h : taintStamp? n = some v) : -(2:Int)^63 ≤ v := by
+/-- What `parseTaintTime` accepts lies in the accepted range (the guard added by the repair of finding T1). -/
+theorem parseTaintTime_range (s : String) (v : Int) (h : parseTaintTime s = some v) : minTaintUnix ≤ v ∧ v ≤ maxTaintUnix := by
+  unfold parseTaintTime at h
+  split at h
+  · simp at h
+  · split at h
+    · simp at h
+    · rename_i hr
+      injection h with h; subst h
+      omega
+
+theorem taintStamp_range (n : Node) (v : Int) (h : taintStamp? n = some v) : minTaintUnix ≤ v ∧ v ≤ maxTaintUnix := by
   unfold taintStamp? at h
   split at h
   · simp at h
-  · exact parseInt64_lower _ _ h
+  · exact parseTaintTime_range _ _ h
+
+theorem taintStamp_lower (n : Node) (v : Int) (h : taintStamp? n = some v) : -(2:Int)^63 ≤ v := by
+  have := (taintStamp_range n v h).1
+  unfold minTaintUnix at this
+  omega
+
+/-- Since the repair, every readable taint time is in the range where `time.Unix` does not wrap: the hypothesis of
+    the `_partial` theorems holds of every view. -/
+theorem inRange_all (view : View) : InRange view := by
+  intro n _ v hv
+  have := (taintStamp_range n v hv).2
+  unfold maxTaintUnix at this
+  unfold unixToInternal
+  omega
 
 /-- Without wrap-around, Go's age is the true age clamped to the range of `time.Duration`. -/
 theorem goAge_eq_clamp (now v : Int) (hlo : -(2:Int)^63 ≤ v) (hhi : v ≤ 2^63 - 1 - unixToInternal) :
@@ -147,6 +172,25 @@ theorem C01_history_partial (rnd : Rat → Rat) (ctl : Ctl) (s : Option CState) 
   rw [hj]
   exact C01_scan_partial rnd o k ctl.globalDry r.cfg r.pre r.preG r.view h r.nowMock r.nowReal (hcfg _ hc).1 (hcfg _ hc).2 hrange
 
+/-- **C01, one scan, in full** (since the repair of T1: `GetToBeRemovedTime` refuses values outside the years
+    1–9999, so no readable taint time can wrap). Whatever the configuration (with non-negative grace periods),
+    controller state, provider state, view — any taint values whatsoever —, clocks, ordering hints and environment
+    responses, every terminate or delete call of the scan is backed by an eligible node of the view. -/
+theorem C01_scan (rnd : Rat → Rat) (o : Oracle) (k : Nat) (globalDry : Bool) (cfg : GroupCfg) (st0 : GState)
+    (g : PGroup) (view : View) (h : Hints) (nowMock nowReal : Int)
+    (hsoft : 0 ≤ cfg.softNs) (hhard : 0 ≤ cfg.hardNs) :
+    C01.holds ⟨globalDry, cfg, st0, g, view, nowMock, nowReal⟩
+      (scanGroup rnd o k globalDry cfg st0 g view h nowMock nowReal).j = true :=
+  C01_scan_partial rnd o k globalDry cfg st0 g view h nowMock nowReal hsoft hhard (inRange_all view)
+
+/-- **C01, histories, in full.** For every history of scans and restarts, every removal call of every group scan is
+    backed by a node that is eligible in that scan's view at that scan's clock. -/
+theorem C01_history (rnd : Rat → Rat) (ctl : Ctl) (s : Option CState) (es : List Event)
+    (hcfg : ∀ c ∈ ctl.cfgs, 0 ≤ c.softNs ∧ 0 ≤ c.hardNs) :
+    ∀ out ∈ runEvents rnd ctl s es, ∀ r ∈ out.recs, r.cfg ∈ ctl.cfgs →
+      C01.holds (ctxOfRec ctl.globalDry r) r.j = true :=
+  fun out ho r hr hc => C01_history_partial rnd ctl s es hcfg out ho r hr hc (inRange_all r.view)
+
 /-- A node whose taint time cannot be read (absent or unparsable) and that is not force-tainted is
     not eligible, so by the theorems above no removal call can be justified by it. -/
 theorem C01_unreadable (c : Ctx) (n : Node) (h1 : taintStamp? n = none) (h2 : hasTaint forceKey n = false) :
@@ -170,7 +214,7 @@ theorem C01_untainted (c : Ctx) (n : Node) (h1 : hasTaint escKey n = false) (h2 
 theorem C01_cordoned (c : Ctx) (n : Node) (h : n.unschedulable = true) : eligible c n = false := by
   unfold eligible; simp [h]
 
-/-! ### The full statement fails: witness (finding T1) -/
+/-! ### The witness of the former finding T1 (now a regression example) -/
 
 def wNode : Node :=
   { name := "n1"
@@ -196,12 +240,18 @@ def wView : View := ⟨[], [wNode, wNode2]⟩
 def wO : Oracle := fun _ _ => .ok
 def wNow : Int := 1790000000000000000
 
-/-- Without the range hypothesis the statement is false of the model (and, by the correspondence
-    and the monitor, of the implementation): a node whose recorded taint time lies ~292 billion years
-    in the *future* is terminated and deleted at once. -/
-theorem C01_full_fails :
-    C01.holds ⟨false, wCfg, wSt, wG, wView, wNow, wNow⟩ (scanGroup id wO 0 false wCfg wSt wG wView ⟨[], []⟩ wNow wNow).j = false := by
-  decide +kernel
+/-- The witness of the former finding T1 — a taint value of 2⁶³−1, ~292 billion years in the *future*, which
+    `time.Unix` used to wrap into the distant past so that the node was terminated and deleted at once — is now
+    unreadable: the scan removes nothing. -/
+theorem C01_T1_witness_repaired :
+    (scanGroup id wO 0 false wCfg wSt wG wView ⟨[], []⟩ wNow wNow).j = [] ∧
+    C01.holds ⟨false, wCfg, wSt, wG, wView, wNow, wNow⟩ (scanGroup id wO 0 false wCfg wSt wG wView ⟨[], []⟩ wNow wNow).j = true := by
+  constructor <;> decide +kernel
+
+/-- Why the guard is needed: without it Go's age computation wraps for that value (the age comes out as the
+    maximal duration although the recorded time is in the future). -/
+theorem goAge_wraps_without_guard : goAgeNs wNow 9223372036854775807 = maxDur ∧ trueAgeNs wNow 9223372036854775807 < 0 := by
+  constructor <;> decide +kernel
 
 /-! ### Non-vacuity -/
 
